@@ -73,6 +73,10 @@ def regenerate(log):
             problems.append((name, "translator refused: " + out[-2000:]))
             if os.path.exists(tmp):
                 os.remove(tmp)
+            # no stale model part: what depended on the translation is not shown for this tree
+            stub = "(* %s refused to translate the current /repo source; regenerated on the next run *)\nDefinition translator_refused : unit := tt.\n" % name
+            if not os.path.exists(target) or open(target).read() != stub:
+                open(target, "w").write(stub)
             continue
         if not os.path.exists(target) or open(target).read() != open(tmp).read():
             os.replace(tmp, target)
